@@ -117,7 +117,8 @@ Check (C07_parse_render_directive_noargs : forall g n w pre k file,
   runs gql_grammar true ANon (Call R_Directive) (dir_text0 g n w ++ k) i (Ok (k, (i + slen (dir_text0 g n w))%N, [t]))
   /\ exists d, build_directive_fn (pre ++ dir_text0 g n w ++ k) file t = BOk d /\ iname (dir_name d) = n /\ dir_args d = None).
 Check (C07_parse_render_directives : forall d ds k, forallb rdir_wf (d :: ds) = true -> follow_dirs (d :: ds) k ->
-  exists g2 m, ws g2 = true /\ (m + slen g2 = slen (dirs_text (d :: ds)))%N /\
+  let g2 := dirs_tail (d :: ds) in
+  exists m, ws g2 = true /\ (m + slen g2 = slen (dirs_text (d :: ds)))%N /\
     forall pre file,
     let inp := pre ++ dirs_text (d :: ds) ++ k in
     let i := slen pre in
